@@ -8,6 +8,7 @@ Tier S: the scalar type is arbitrary, nothing here computes with it.
 -/
 import Rrtk.Thm.C15
 import Rrtk.TermFollow
+import Rrtk.Thm.Lemmas.FollowOrder
 set_option linter.unusedSectionVars false
 set_option linter.unusedSimpArgs false
 namespace Rrtk.Thm.C15
